@@ -82,7 +82,7 @@ def run(tier, seed):
         rule='parameter grid (poll, ping_rate, ping_timeout, close_timeout incl. 0) x every history of {time-out, pong / text / close '
              'reply arriving after 0..poll ticks, EOF, permanent silence} on the virtual tick grid x application close at Ready or at '
              'any Poll; non-trivial = distinct timed event sequences with an automatic ping, Unresponsive or >= 3 polls',
-        nontrivial=nontrivial, anchors=anchors, variants=variants, sample_keys=('ev', 'wr'), max_exec=None if tier == 'quick' else 2500)
+        nontrivial=nontrivial, need_actions=('RegPoll', 'RegPing', 'RegPingTimeout', 'RegCloseTimeout', 'CloseFin'), anchors=anchors, variants=variants, sample_keys=('ev', 'wr'), max_exec=None if tier == 'quick' else 2500)
     need = {'unresponsive', 'auto_ping', 'three_polls', 'pong', 'forced_disconnect', 'close_completed'}
     missing = sorted(need - seen)
     return r.finish(vacuous=('never exercised: %s' % missing) if missing else None)
